@@ -1064,6 +1064,9 @@ pub fn gen_key(g: &mut Gen, f: &mut Faults) -> Item {
         }
         return gen_wrong_kind(g, &["map"]);
     }
+    if f.remaining == 0 && g.ratio(1, 12) {
+        return gen_realistic_key(g);
+    }
     let mut entries: Vec<(Item, Item)> = vec![];
     if !f.take(g, "kty-absent") {
         let kty = if f.take(g, "kty-bad") {
@@ -1122,6 +1125,85 @@ pub fn gen_key(g: &mut Gen, f: &mut Faults) -> Item {
         entries = p.into_iter().map(|i| entries[i].clone()).collect();
     }
     Item::Map(entries)
+}
+
+/// Key material as applications hold it: a coordinate / scalar / modulus of the size its curve or
+/// key type calls for, one octet shorter (leading zero stripped) or one longer (an ASN.1 sign octet
+/// `00` in front of a top-bit-set value, a SEC1 prefix), all-zero, all-ones.
+fn gen_key_material(g: &mut Gen, size: usize) -> Item {
+    let n = match g.below(6) {
+        0 => size.saturating_sub(1).max(1),
+        1 | 2 => size + 1,
+        _ => size,
+    };
+    let mut b = match g.below(5) {
+        0 => vec![0u8; n],
+        1 => vec![0xffu8; n],
+        _ => g.bytes(n),
+    };
+    if n == size + 1 {
+        b[0] = *g.pick(&[0u8, 0, 0, 2, 3, 4]);
+        if g.ratio(2, 3) {
+            b[1] |= 0x80;
+        }
+    } else if g.bool() {
+        b[0] |= 0x80;
+    }
+    Item::Bytes(b)
+}
+
+/// A well-formed key of one of the registered key types with the parameters that type defines
+/// (OKP / EC2 with a registered curve and field-sized coordinates, RSA, symmetric), kid / alg /
+/// key_ops as usual, in the registered or a shuffled member order.
+pub fn gen_realistic_key(g: &mut Gen) -> Item {
+    let mut e: Vec<(Item, Item)> = vec![];
+    match g.below(4) {
+        0 => {
+            let (crv, size) = *g.pick(&[(1i128, 32usize), (2, 48), (3, 66), (8, 32)]);
+            e.push((Item::Int(1), Item::Int(2)));
+            e.push((Item::Int(-1), if g.ratio(1, 8) { Item::Text((*g.pick(&["P-256", "P-384", "P-521", "secp256k1"])).to_string()) } else { Item::Int(crv) }));
+            e.push((Item::Int(-2), gen_key_material(g, size)));
+            e.push((Item::Int(-3), if g.ratio(1, 4) { Item::Bool(g.bool()) } else { gen_key_material(g, size) }));
+            if g.bool() {
+                e.push((Item::Int(-4), gen_key_material(g, size)));
+            }
+        }
+        1 => {
+            let (crv, size) = *g.pick(&[(4i128, 32usize), (5, 56), (6, 32), (7, 57)]);
+            e.push((Item::Int(1), Item::Int(1)));
+            e.push((Item::Int(-1), Item::Int(crv)));
+            e.push((Item::Int(-2), gen_key_material(g, size)));
+            if g.bool() {
+                e.push((Item::Int(-4), gen_key_material(g, size)));
+            }
+        }
+        2 => {
+            e.push((Item::Int(1), Item::Int(3)));
+            let n = *g.pick(&[128usize, 256]);
+            e.push((Item::Int(-1), gen_key_material(g, n)));
+            e.push((Item::Int(-2), Item::Bytes(vec![1, 0, 1])));
+        }
+        _ => {
+            e.push((Item::Int(1), Item::Int(4)));
+            let n = *g.pick(&[16usize, 24, 32, 64]);
+            e.push((Item::Int(-1), gen_key_material(g, n)));
+        }
+    }
+    let mut none = Faults::none();
+    if g.bool() {
+        e.push((Item::Int(2), Item::Bytes(g.nonempty_bytes())));
+    }
+    if g.ratio(1, 3) {
+        e.push((Item::Int(3), gen_alg(g, &mut none)));
+    }
+    if g.ratio(1, 3) {
+        e.push((Item::Int(4), gen_key_ops(g, &mut none)));
+    }
+    if g.ratio(1, 3) {
+        let p = g.permutation(e.len());
+        e = p.into_iter().map(|i| e[i].clone()).collect();
+    }
+    Item::Map(e)
 }
 
 pub fn gen_keyset(g: &mut Gen, f: &mut Faults) -> Item {
